@@ -217,6 +217,38 @@ impl Prop for C10 {
                 Some(case(text, want, "en", "add-sub"))
             },
         ));
+        f.push(Family::new(
+            "add-sub-chains",
+            Mode::Full,
+            "chains of 3..=5 durations joined by every pattern of + and - ('5 hours + 1 hour - 2 hours + 30 minutes'), parts from [5 hours, 1 hour, 2 hours, 30 minutes, 1 day, 45 seconds], in every language (the language's own words): evaluated from left to right",
+            move |ch| {
+                let l = ch.pick(&crate::spec::spec().languages).clone();
+                let n = 3 + ch.choose(3);
+                let parts: [(i64, Unit); 6] = [(5, Unit::Hour), (1, Unit::Hour), (2, Unit::Hour), (30, Unit::Minute), (1, Unit::Day), (45, Unit::Second)];
+                let mut text = String::new();
+                let mut total = 0i64;
+                for i in 0..n {
+                    let (c, u) = parts[(i * 5 + ch.choose(2) * 3) % parts.len()];
+                    let (sg, pl) = u.words(&l);
+                    let t = format!("{} {}", c, if c == 1 { sg } else { pl });
+                    if i == 0 {
+                        // start high enough that the chain stays positive
+                        text.push_str(&format!("3 {} ", Unit::Day.words(&l).1));
+                        total += 3 * 86400;
+                        text.push_str("+ ");
+                        text.push_str(&t);
+                        total += dur::amount(c, u);
+                    } else if ch.flag() {
+                        text.push_str(&format!(" + {}", t));
+                        total += dur::amount(c, u);
+                    } else {
+                        text.push_str(&format!(" - {}", t));
+                        total -= dur::amount(c, u);
+                    }
+                }
+                Some(case(text, total, &l, "add-sub-chain"))
+            },
+        ));
         // as U ---------------------------------------------------------------------------
         {
             let conns: Vec<&'static str> = vec!["as", "in", "to", "into"];
